@@ -18,7 +18,7 @@ pub static C11: Scenario = Scenario {
     level: "exploration",
     rule: RULE,
     runs: |t| match t {
-        Tier::Quick => 4_000,
+        Tier::Quick => 15_000,
         Tier::Thorough => 200_000,
     },
     gen: |c, i| gen(c, i, "C11"),
@@ -35,7 +35,7 @@ pub static C12: Scenario = Scenario {
     level: "exploration",
     rule: RULE,
     runs: |t| match t {
-        Tier::Quick => 4_000,
+        Tier::Quick => 15_000,
         Tier::Thorough => 200_000,
     },
     gen: |c, i| gen(c, i, "C12"),
